@@ -49,7 +49,7 @@ def cells_of(t):
     if not m_:
         raise NotImplementedError(f"published type {t}")
     n = int(m_.group(2))
-    return n if m_.group(1) == "Bytes" else -(-n // lb())
+    return n if m_.group(1) == "Bytes" else max(1, -(-n // lb()))     # BigUint(0): one limb
 
 
 def published(e, I, O, n_in):
@@ -154,7 +154,7 @@ MODEXP_VARIANTS = [("zero-modulus-accepted", V_zero_modulus), ("exponent-one-res
 
 
 def ncell(t):
-    return -(-t[1] // lb()) if t[0] == "biguint" else t[1]
+    return max(1, -(-t[1] // lb())) if t[0] == "biguint" else t[1]     # BigUint(0) is one limb (the constant 0)
 
 
 def bent(name, op, in_types, values, spec, alt=(), nout=1, variants=(), **shape):
@@ -218,6 +218,8 @@ def family(tier, seed):
         E.append(bent("from_bytes[biguint]", {"from_bytes": {"BigUint": n}}, [("bytes", k)], [bs], S_from_bytes(k), alt=[[[0] * k], [[255] * k]], a=n, bytes=k))
     for ex in [0, 1, 2, 3]:
         for a, b in ([(8, 8), (64, 64)] if tier == "quick" else [(8, 8), (64, 64), (120, 64), (128, 128), (200, 200)]):
+            if ex >= 3 and a > 192:
+                continue        # three-limb operands with two modular multiplications: 600 s timeout measured (run.outside)
             m = R(b) | (1 << (b - 1)) | 1
             x = R(a)
             if ex == 1:
@@ -237,7 +239,7 @@ def check(run):
     for en in ents:
         en["k"] = 0          # zkir circuits choose their own k (MidnightCircuit::min_k)
     run.assumptions += ["C18/B: BigUint(n) values are identified with their published limbs (ceil(n/LOG2_BASE) cells, base 2^LOG2_BASE little endian), the encoding `AssignedBigUint::as_public_input` documents; the limb size is recovered from the real encoder"]
-    run.outside += ["C18/B: into_bytes(k) on BigUint with k beyond the bytes of its limbs and on Native with k = 2^32 (known panics, being fixed separately); BigUint(0); mod_exp exponents above 3; operands above 200 bits"]
+    run.outside += ["C18/B: into_bytes(k) on BigUint with k beyond the bytes of its limbs and on Native with k = 2^32 (known panics, being fixed separately); BigUint(0); mod_exp exponents above 3 and exponent 3 on three-limb (200-bit) operands (600 s timeout measured); operands above 200 bits"]
     run.bounds.append(f"C18/B tier={t}: {len(ents)} one-operation programs over BigUint(n), n in {{8, 64, 120, 128, 200}}, limb size {lb()}")
     ents = cbig.split_panicking(run, "zkir", ents)
     cengine.run_family(run, "zkir", ents, timeout=60 if t == "quick" else 600, only=only, workers=6)
